@@ -469,8 +469,9 @@ func (c09) Exec(script interface{}, c *core.Ctx) {
 	curCmd := ""
 	var items []string // names of attached descriptors, "f<i>" for foreign ones
 	foreign := map[string]core.Hex{}
-	var heldRaw []c09Held // the slices earlier UpdateData calls returned: they are the caller's
-	var lastEnc []byte    // snapshot of the last encoding (nil: none yet)
+	var heldRaw []c09Held     // the slices earlier UpdateData calls returned: they are the caller's
+	var decBuf, decWas []byte // the buffer the signal was decoded from, and what it held
+	var lastEnc []byte        // snapshot of the last encoding (nil: none yet)
 	haveEnc := false
 
 	ok := c.Call("create objects", func() {
@@ -532,7 +533,9 @@ func (c09) Exec(script interface{}, c *core.Ctx) {
 			c.Probe("damaged_section_decoded_first")
 		}
 		var err error
-		if !c.Call("scte35.NewSCTE35(initial)", func() { sc, err = scte35.NewSCTE35(append([]byte{0}, input...)) }) {
+		decBuf = append([]byte{0}, input...)
+		decWas = append([]byte(nil), decBuf...)
+		if !c.Call("scte35.NewSCTE35(initial)", func() { sc, err = scte35.NewSCTE35(decBuf) }) {
 			return
 		}
 		if err != nil {
@@ -838,6 +841,11 @@ func (c09) Exec(script interface{}, c *core.Ctx) {
 		if !c09Getters(c, sc, cmds, descs, curCmd, items, tier, stuffing, desired) {
 			return
 		}
+		if !bytes.Equal(decBuf, decWas) {
+			// setters and encoders write into the signal, not into the bytes it was decoded from
+			c.Fail("decoded_from_buffer_untouched", "input_buffer_of_the_decoder_changed:"+opClass(op), "changed", "unchanged")
+			return
+		}
 		for _, h := range heldRaw {
 			if !bytes.Equal(h.raw, h.snap) {
 				c.Fail("returned_encoding_unchanged", "earlier_update_data_result_changed:"+opClass(op), fmt.Sprintf("%x", h.raw), fmt.Sprintf("%x", h.snap))
@@ -1101,6 +1109,11 @@ func c09DescOp(c *core.Ctx, dd *c09Desc, op C09Op) bool {
 				l = append(l, co)
 			}
 			d.SetComponents(l)
+			// the objects handed in stay the caller's: changing them afterwards changes no descriptor
+			for _, co := range l {
+				co.SetComponentTag(co.ComponentTag() ^ 0xA5)
+				co.SetPTSOffset(co.PTSOffset() ^ 0x155)
+			}
 		case "upid":
 			d.SetUPIDType(scte35.SegUPIDType(op.U))
 			d.SetUPID(append([]byte(nil), op.Data...))
@@ -1120,6 +1133,10 @@ func c09DescOp(c *core.Ctx, dd *c09Desc, op C09Op) bool {
 				l = append(l, x)
 			}
 			d.SetMID(l)
+			for _, x := range l {
+				x.SetUPIDType(x.UPIDType() ^ 0x03)
+				x.SetUPID([]byte("changed-by-the-caller-afterwards"))
+			}
 		case "comps_reorder":
 			cs := d.Components()
 			for i, j := 0, len(cs)-1; i < j; i, j = i+1, j-1 {
